@@ -672,7 +672,7 @@ fn short_round(r: &Round) -> Value {
 }
 
 /// A history: rounds on one fresh handle whose allocator stands at `start`.
-fn replay_history(rt: &Runtime, start: i64, rounds: &[Round], expect: &[Exp], alts: &[(String, Vec<Exp>)], single: bool, rep: &mut Report) {
+fn replay_history(rt: &Runtime, start: i64, rounds: &[Round], expect: &[Exp], alts: &[(String, Vec<Exp>)], rep: &mut Report) {
     let (obs, drv) = rt.block_on(async {
         let mut c = open(start as i32);
         let mut obs: Vec<Obs> = vec![];
@@ -708,7 +708,6 @@ fn replay_history(rt: &Runtime, start: i64, rounds: &[Round], expect: &[Exp], al
             match (dev, modifier_of(&parts)) {
                 (Some(d), Some(m)) => format!("c02:mods:{}-{}", m, d),
                 (Some(d), None) => format!("c02:mods:{}:{}", d, parts.join("+")),
-                (None, Some(m)) if !single => format!("c02:mods:{}-a-call:{}", m, rounds[i].op),
                 _ => format!("c02:pdu:{}:{}", rounds[i].op, parts.join("+")),
             }
         };
@@ -885,7 +884,7 @@ fn replay(path: &str, rep: &mut Report) {
                     rep.sample(json!({"op": op, "args": v["a"], "id": id, "controls": v["ctrls"], "expected_wire": hex(&exp.encs[0])}));
                 }
                 let round = Round { ws, op, a, silent: false };
-                replay_history(&rt, id - 1, &[round], &[exp], &[], true, rep);
+                replay_history(&rt, id - 1, &[round], &[exp], &[], rep);
             }
             "hist" => {
                 let rounds: Vec<Round> = v["calls"].as_array().map(|a| a.iter().map(round_of).collect()).unwrap_or_default();
@@ -907,7 +906,7 @@ fn replay(path: &str, rep: &mut Report) {
                     rep.sample(json!({"history": rounds.iter().map(short_round).collect::<Vec<_>>(),
                                       "expected": expect.iter().map(|e| json!({"out": e.out, "id": e.id, "wire": e.encs.first().map(|x| hex(x))})).collect::<Vec<_>>()}));
                 }
-                replay_history(&rt, v["start"].as_i64().unwrap_or(0), &rounds, &expect, &alts, false, rep);
+                replay_history(&rt, v["start"].as_i64().unwrap_or(0), &rounds, &expect, &alts, rep);
             }
             "resp" => replay_response(&rt, &v, rep),
             o => {
